@@ -31,15 +31,16 @@ type MWOp struct {
 }
 
 type MWParams struct {
-	EPN     int          `json:"epn"`
-	Cache   int          `json:"cache"`
-	Cols    []string     `json:"cols"` // non-key columns
-	Scripts [][]MWOp     `json:"scripts"`
-	Policy  string       `json:"policy"`
-	Inter   int          `json:"inter"` // intermediate read-write openers launched while writers run
-	Perm    bool         `json:"perm"`  // permute merge order at opens
-	Faults  []*FaultSpec `json:"faults,omitempty"`
-	Readers int          `json:"readers"`
+	EPN             int          `json:"epn"`
+	Cache           int          `json:"cache"`
+	Cols            []string     `json:"cols"` // non-key columns
+	Scripts         [][]MWOp     `json:"scripts"`
+	Policy          string       `json:"policy"`
+	Inter           int          `json:"inter"` // intermediate read-write openers launched while writers run
+	Perm            bool         `json:"perm"`  // permute merge order at opens
+	Faults          []*FaultSpec `json:"faults,omitempty"`
+	Readers         int          `json:"readers"`
+	ViewAfterCommit bool         `json:"view_after_commit,omitempty"` // record (versions, rows) after every commit
 }
 
 // Valid checks the preconditions of the quantifier: statements have
@@ -281,6 +282,9 @@ func (m *MWRun) RunScript(c *Client, script []MWOp) {
 			return
 		}
 		m.Own[vers[0]] = append(m.Own[vers[0]], ids...)
+		if m.P.ViewAfterCommit {
+			m.View(c, "commit", nil)
+		}
 		if m.AfterCommit != nil {
 			m.AfterCommit(c, vers[0])
 		}
